@@ -20,7 +20,7 @@ PROPERTY = "C18"
 KEYS = ["linear:F_bias_kw", "linear:nn", "matmul:param", "gelu:F", "silu:F", "softmax:nn", "dropout:F_p0", "layer_norm:F_affine",
         "layer_norm:nn", "conv1d:F", "sdpa:causal_kw", "sdpa:mask_pos", "ulinear:uu", "usdpa:plain", "tanh", "relu",
         "mul_scalar", "neg", "reshape", "view_t", "rotate_half", "stack_mean", "masked", "index_rows", "with_zeros",
-        "gate_softmax", "add_scalar", "add_param", "iadd_param", "view_inplace", "cmp_two", "cat_kw", "hand_scaled"]
+        "gate_softmax", "add_scalar", "add_param", "iadd_param", "view_inplace", "cmp_two", "cat_kw", "hand_scaled", "add_ones", "gather_argmax"]
 SMALL = ["linear:nn", "gelu:F", "softmax:nn", "rotate_half", "stack_mean", "masked", "index_rows", "with_zeros", "reshape",
          "add_param", "sdpa:causal_kw", "neg"]
 RULE = (
@@ -67,6 +67,10 @@ def _progs(tier: str) -> List[Dict[str, Any]]:
         for dt in ("bfloat16", "float16", "float64"):
             add([["op", "linear:nn"], ["op", k]], "x", ["sum", "two_outputs", "tensor"][n % 3], True, dtype=dt)
         add([["op", k]], "x", ["sum", "two_outputs", "tensor"][n % 3], True, out_name="output")
+    # frozen parameters and float buffers must stay frozen and report no backward metrics
+    for n, k in enumerate(["linear:nn", "linear:F_bias_kw", "layer_norm:nn", "matmul:param", "with_zeros", "add_param", "ulinear:uu"]):
+        add([["op", k], ["op", "gelu:F"], ["op", "with_zeros"]], ["x", "emb", "emb_pos"][n % 3], "sum", True, freeze_first=True)
+        add([["op", "with_zeros"], ["op", k]], "x", "two_outputs", True, freeze_first=True)
     for order in ("skip_first", "branch_first"):
         for a, b in itertools.product(SMALL[:8], repeat=2):
             add([["op", "linear:nn"], ["res", [["op", a], ["op", b]], order], ["op", "stack_mean"]], "x", "two_outputs")
@@ -165,6 +169,8 @@ def run_case(case: Dict[str, Any]) -> Dict[str, Any]:
                 pairs.append((float(v.std()) if v.numel() > 1 else float("nan"),
                               float(gr.std()) if gr is not None and gr.numel() > 1 else None))
         ann = re.findall(r"\(-> ([0-9.e+-]+|n/a|nan), <- ([0-9.e+-]+|n/a|nan)\)", code)
+        if any(f == "n/a" for f, _ in ann):
+            viol.append({"key": ident + "|forward_scale_missing", "msg": f"a float tensor is annotated without a forward scale\n{code}"})
         nchk = 0
         for f, b in ann:
             if f in ("n/a", "nan"):
@@ -221,6 +227,9 @@ def run_case(case: Dict[str, Any]) -> Dict[str, Any]:
         if d:
             viol.append({"key": ident + "|gradient" + d, "msg": f"{n}\n" + src})
             break
+    if r.get("flags"):
+        if any(a != b for a, b in r["flags"]["params"]) or any(r["flags"]["buffers"]):
+            viol.append({"key": ident + "|requires_grad_changed", "msg": f"parameters (original, tracked) {r['flags']['params']} buffers {r['flags']['buffers']}\n" + src})
     # (2)/(3) metrics
     nfloat = 0
     for node in r["graph"].nodes:
